@@ -17,7 +17,7 @@ EXTENDS Naturals, Sequences, FiniteSets, TLC, Json
 CONSTANTS Opens,       \* OPEN classes offered by the peer (subset of DOMAIN OpenDef)
           Updates,     \* UPDATE classes (subset of DOMAIN UpdDef)
           Garbage,     \* malformed-header classes (subset of DOMAIN HdrDef)
-          Stops,       \* administrative / timer events used: subset of {"ManualStop", "HoldExpires", "WriteFails", "Wait", "ConnLost"} \cup DOMAIN NotifDef
+          Stops,       \* administrative / timer events used: subset of {"ManualStop", "HoldExpires", "WriteFails", "Wait", "ConnLost", "Sustain"} \cup DOMAIN NotifDef
           LocalCfg,    \* name of the local peer configuration (DOMAIN CfgDef)
           Pols,        \* policies the operator may put in place through the server ({} = none): subset of {"accept", "reject"}
           Origs,       \* prefixes another source may put into the Loc-RIB ({} = none): subset of {"o1", "o2"}
@@ -235,6 +235,14 @@ Wait ==
     /\ UNCHANGED <<st, conn, attached, adjIn, out, hold, nsess>>
     /\ Log([a |-> "Wait"])
 
+(* an established session with a short hold time lives on for longer than the hold time as long as the peer keeps sending *)
+(* KEEPALIVEs (events 26 and 11: the hold timer restarts, the speaker sends its own KEEPALIVEs every third of the hold time;  *)
+(* those are not part of `out`: the adapter counts them)                                                                    *)
+Sustain ==
+    /\ st = "Established" /\ hold \in 3..10
+    /\ UNCHANGED <<st, conn, attached, adjIn, out, hold, nsess>>
+    /\ Log([a |-> "Sustain", seconds |-> hold + 2])
+
 ManualStop ==
     /\ st \in {"OpenSent", "OpenConfirm", "Established"}
     /\ ToIdle(<<Notif(6, 0)>>)
@@ -259,6 +267,7 @@ Step == \/ \E p \in Pols : SetImport(p) \/ SetExport(p)
         \/ "HoldExpires" \in Stops /\ HoldExpires
         \/ "WriteFails" \in Stops /\ WriteFails
         \/ "ConnLost" \in Stops /\ ConnLost
+        \/ "Sustain" \in Stops /\ Len(hist) >= 1 /\ hist[Len(hist)].a # "Sustain" /\ Sustain
         \/ "ManualStop" \in Stops /\ ManualStop
         \/ "Wait" \in Stops /\ Len(hist) >= 1 /\ hist[Len(hist)].a # "Wait" /\ Wait
 Next == Len(hist) < MaxDepth /\ Step
